@@ -290,7 +290,23 @@ def spec_socks_handshake(ck):
     if n < 4:
         ck.add('socks-handshake/reachability', 'vacuous', 'only %d handshake outcomes explored' % n)
     ck.absorb(ex, 'SocksListener::handshake', [o for o, _ in outs])
+    ck.plans.append(_socks_listener_replay_plan)
     ck.bounds['SocksListener::handshake'] = 'one connection after accept; request = any cmd / credentials; symbolic auth verdict; TLS off; awaits complete'
+
+
+def _socks_listener_replay_plan(ob):
+    """a real SocksListener (credentials required, one configured user) handshakes with a scripted SOCKS5 client over loopback"""
+    if (ob.target or '') != 'SocksListener::handshake' or ob.finding is None:
+        return None
+    i = ob.finding.inputs or {}
+    cmd = i.get('cmd', 1) if isinstance(i.get('cmd', 1), int) else 1
+    udp = bool(i.get('allow_udp', True))
+    if ob.label == 'C07/socks-listener/routed-only-after-credentials-check-passed':
+        cases = [{'driver': 'socks_listener', 'args': {'cmd': cmd, 'allow_udp': udp, 'creds': c}} for c in ('wrong', 'none')]
+        return 'sockslisten', cases, lambda o: o.get('routed') is True and o.get('creds') != 'right'
+    if ob.label == 'C06/socks-listener/only-connect-and-allowed-udp-are-routed' and not (cmd == 1 or (cmd == 3 and udp)):
+        return 'sockslisten', {'driver': 'socks_listener', 'args': {'cmd': cmd, 'allow_udp': udp, 'creds': 'right'}}, lambda o: o.get('routed') is True
+    return None
 
 
 # =========================================================================== AuthData::check truth table
@@ -429,7 +445,10 @@ def spec_h11c_connect(ck):
             continue
         ok, _ = _ok_payload(r)
         est = ('upstream-established',) in o.trace
-        ex.prove(o, 'C06/h11c-connect/upstream-counts-as-established-only-on-status-200', z3.Implies(z3.Or(ok, est), z3.And(code.t == BV(200, 16), read_fails == BV(0, 64))))
+        # RFC 9110 9.3.6: any 2xx answer to CONNECT means the tunnel is up -- the code in force demands exactly 200, a relaxation to
+        # the whole 2xx class would still be right, anything outside it is the upstream saying no (or not yet: 1xx)
+        ex.prove(o, 'C06/h11c-connect/upstream-counts-as-established-only-on-a-2xx-status',
+                 z3.Implies(z3.Or(ok, est), z3.And(z3.UGE(code.t, BV(200, 16)), z3.ULT(code.t, BV(300, 16)), read_fails == BV(0, 64))))
     for f in ex.findings:
         f.target = 'h11c_connect'
     ck.plans.append(_h11c_replay_plan)
@@ -438,9 +457,23 @@ def spec_h11c_connect(ck):
 
 
 def _h11c_replay_plan(ob):
-    if (ob.target or '') != 'h11c_connect' or ob.label.startswith('C0'):
+    if (ob.target or '') != 'h11c_connect':
         return None
     f = ob.finding
+    if ob.label.startswith('C06/h11c-connect/upstream-counts-as-established'):
+        # the scripted upstream answers with the status code of the model; the real h11c_connect must not return Ok
+        code = (f.inputs or {}).get('upstream_status', 0) if f is not None else 0
+        code = code if isinstance(code, int) else 0
+        cases = []
+        for c in (code, 100, 101, 199, 300, 404, 999):
+            if 200 <= c < 300:
+                continue
+            for udp in (False, True):
+                reply = ('HTTP/1.1 %d X\r\nSession-Id: 1\r\n\r\n' % c).encode()
+                cases.append({'driver': 'connect', 'args': {'upstream_reply': reply.hex(), 'udp': udp}})
+        return 'h11c', cases, lambda o: o.get('ok') is True
+    if ob.label.startswith('C0'):
+        return None
     sid = (f.inputs.get('session_id_header') or {}).get('hex', '78') if f is not None else '78'
     try:
         txt = bytes.fromhex(sid).decode('ascii')
@@ -657,4 +690,114 @@ def _http_replay_plan(ob):
         return None
     f = ob.finding
     hx = ((f.inputs or {}).get('peer_bytes') or (f.inputs or {}).get('connect_target') or {}).get('hex', '') if f is not None else ''
-    return 'h11c', {'driver': 'http_head', 'args': {'which': t.split(' ', 1)[1], 'bytes': hx}}, lambda o: bool(o.get('panicked'))
+    which = t.split(' ', 1)[1]
+    # the solver's bytes need not be valid UTF-8 (validity is an uninterpreted flag in the model) while the real readers reject
+    # invalid UTF-8 before anything else: also try the model with its tail replaced by a 2-byte character, and two heads whose
+    # last line ends, unterminated, in a multi-byte character
+    raw = bytes.fromhex(hx)
+    variants = [raw, raw[:-1] + 'é'.encode() if raw else 'é'.encode(), b'CONNECT a:1 HTTP/1.1\r\nX: caf\xc3\xa9', b'HTTP/1.1 503 Refus\xc3\xa9', 'é'.encode()]
+    cases = [{'driver': 'http_head', 'args': {'which': which, 'bytes': v.hex()}} for v in variants]
+    return 'h11c', cases, lambda o: bool(o.get('panicked'))
+
+
+# =========================================================================== SOCKS connector: how the upstream's reply is interpreted
+
+def spec_socks_connector(ck):
+    """SocksConnector::connect with the REAL request writer and reply reader on a scripted upstream: the upstream counts as
+    established (server stream stored, Ok returned) iff the upstream GRANTED the request -- SOCKS5: reply code 0; SOCKS4: 90."""
+    import harness
+    from values import Stream
+    fn = ck.find(lambda: ck.db.method('SocksConnector', 'connect', trait='Connector'), 'SocksConnector::connect')
+    ck.find(lambda: ck.db.method('SocksResponse', 'read_from'), 'SocksResponse::read_from')
+    if fn is None:
+        return
+    ck.plans.append(_socks_connector_replay_plan)
+    fields = ck.si.structs.get('SocksConnector', ['name', 'server', 'port', 'version', 'auth', 'tls'])
+    for version in (4, 5):
+        ex = ck.engine(loop_bound=6, call_depth=10)
+        ex.benign_havoc = harness.IRRELEVANT
+        ex.no_inline = [re.compile(r'Context::|set_keepalive|TcpStream|local_addr|peer_addr|make_buffered_stream')]
+        ex.havoc_result_ok = True
+        ex.type_bindings = {'A': 'PasswordAuth', 'T': 'Option<(String, String)>'}     # req.write_to(&mut server, PasswordAuth::optional())
+        st = State()
+        reply = Bytes.symbolic('upstream_reply', 'in')
+        ex.assume(st, z3.ULE(reply.len, BV(12, 64)))
+        scell = st.alloc(Stream('upstream', reply))
+        vn = ex.si.enums['Feature']
+        me = Agg('SocksConnector', {fields.index('name'): Bytes.symbolic('name', 'string'), fields.index('server'): Bytes.symbolic('server', 'string'),
+                                    fields.index('port'): Int(z3.BitVec('port', 16), 16), fields.index('version'): Int(BV(version, 8), 8),
+                                    fields.index('auth'): C.mk_option(ex, None), fields.index('tls'): C.mk_option(ex, None)})
+
+        def connect_tcp(ctx):
+            return Future('tcp', [])
+
+        @CA.awaiter('tcp')
+        def _aw(ctx, fut):
+            return C.mk_result(ctx.ex, ok=Ref(scell, ()))
+
+        def target(ctx):
+            # an IPv4 destination: representable in both protocol versions
+            return Agg('TargetAddress', {}, ex.si.enums['TargetAddress'].index('SocketAddr'),
+                       {ex.si.enums['TargetAddress'].index('SocketAddr'): {0: CA.sym_socketaddr(ctx.ex, ctx.st, 'dest') if False else _v4_sockaddr(ctx.ex, ctx.st)}}, ex.si.enums['TargetAddress'])
+
+        def set_server_stream(ctx):
+            ctx.st.trace.append(('upstream-established',))
+            return ctx.args[0]
+        for rx, f in ((r'TcpStream::connect::<', connect_tcp), (r'make_buffered_stream::<', lambda ctx: ctx.args[0]),
+                      (r'Context::feature$', lambda ctx: Agg('Feature', {}, vn.index('TcpForward'), {}, vn)), (r'Context::target$', target),
+                      (r'Context::set_server_stream$', set_server_stream), (r'Context::set_local_addr$|Context::set_server_addr$', lambda ctx: ctx.args[0])):
+            ex.overrides.append((re.compile(rx), f))
+        ex.inputs = {'upstream_reply': reply}
+        args = [Ref(st.alloc(me), ()), Ref(st.alloc(Opaque('GlobalState', 'state')), ()), Ref(st.alloc(Opaque('RwLock<Context>', 'ctx')), ())]
+        outs = run_async(ex, st, fn, args)
+        n = 0
+        for o, r in outs:
+            if o.status != 'returned' or r is None:
+                continue
+            n += 1
+            ok, _ = _ok_payload(r)
+            est = ('upstream-established',) in o.trace
+            # what the upstream said, per protocol: v5 = [5, REP, ..], v4 = [0, CD, ..]
+            B = lambda i: reply.at(BV(i, 64))
+            if version == 5:
+                # [5, METHOD] answers the greeting (0 = no authentication, the only method this connector can complete without
+                # credentials), then [5, REP, RSV, ATYP, ...] answers the request
+                head = z3.And(z3.UGE(reply.len, BV(4, 64)), B(0) == BV(5, 8), B(1) == BV(0, 8), B(2) == BV(5, 8))
+                granted = z3.And(head, B(3) == BV(0, 8))
+                refused = z3.And(head, B(3) != BV(0, 8))
+                whole = z3.And(reply.len == BV(12, 64), B(5) == BV(1, 8))
+            else:
+                granted = z3.And(z3.UGE(reply.len, BV(8, 64)), B(0) == BV(0, 8), B(1) == BV(90, 8))
+                # SOCKS4's refusal codes: 91 rejected or failed, 92 / 93 identd problems
+                refused = z3.And(z3.UGE(reply.len, BV(8, 64)), B(0) == BV(0, 8), z3.Or(B(1) == BV(91, 8), B(1) == BV(92, 8), B(1) == BV(93, 8)))
+                whole = reply.len == BV(8, 64)
+            # (replies that are not well-formed for the connector's protocol version are not judged: only that well-formed
+            # grants and well-formed refusals are told apart correctly)
+            ex.prove(o, 'C06/socks-connector/v%d-a-refusing-upstream-is-reported-as-failure' % version, z3.Implies(refused, z3.And(z3.Not(ok), z3.BoolVal(not est))))
+            ex.prove(o, 'C06/socks-connector/v%d-a-granting-upstream-is-reported-as-established' % version, z3.Implies(z3.And(granted, whole), z3.And(ok, z3.BoolVal(est))))
+        if not n:
+            ck.add('C06/socks-connector/v%d/reachability' % version, 'vacuous', 'connect never returned in the model')
+        for f in ex.findings:
+            if not hasattr(f, 'target'):
+                f.target = 'socks connector v%d' % version
+        ck.absorb(ex, 'SocksConnector::connect v%d' % version, [o for o, _ in outs])
+    ck.bounds['socks-connector'] = 'SocksConnector::connect, version 4 and 5, no auth, no TLS, TCP forward to an IPv4 destination; the upstream sends any <= 12 bytes'
+
+
+def _v4_sockaddr(ex, st):
+    sa = Agg('SocketAddrV4', {0: CA.ipv4(z3.BitVec('dest_ip4', 32)), 1: Int(z3.BitVec('dest_port', 16), 16)})
+    return Agg('SocketAddr', {}, 0, {0: {0: sa}}, ex.si.enums['SocketAddr'])
+
+
+def _socks_connector_replay_plan(ob):
+    t = ob.target or ''
+    if not t.startswith('socks connector v') or ob.finding is None:
+        return None
+    version = int(t[-1])
+    rep = ((ob.finding.inputs or {}).get('upstream_reply') or {}).get('hex', '')
+    case = {'driver': 'socks_connector', 'args': {'version': version, 'upstream_reply': rep}}
+    if 'granting-upstream-is-reported-as-established' in ob.label:
+        return 'socksconn', case, lambda o: o.get('ok') is False
+    if 'only-if-it-granted' in ob.label or 'refusing-upstream' in ob.label:
+        return 'socksconn', case, lambda o: o.get('ok') is True
+    return 'socksconn', case, lambda o: bool(o.get('panicked'))
